@@ -43,6 +43,10 @@ def jobs(tier):
             base = {"max": mx, "min": mn, "tasks": ["raise_noname", "ret"], "clients": [ops],
                     "props": ["exactly_once", "nodeadlock", "bounded", "results"], "window_at": k, "twin_prog": "progress"}
             out.append((dict(base, name="c09-noname-max{0}min{1}-op{2}".format(mx, mn, k)), full))
+        # start() racing with an enqueue from another thread; nobody enqueues afterwards
+        base = {"max": mx, "min": mn, "tasks": ["ret"], "clients": [["start"], ["enq0", "await0"]],
+                "props": ["exactly_once", "results", "bounded", "nodeadlock"], "window_at": 0, "hold": [1], "twin_prog": "progress"}
+        out.append((dict(base, name="c09-start-race-max{0}min{1}".format(mx, mn)), dict(full, depth=full["depth"] + 2)))
         # two enqueuing clients, from the constructed pool
         base = {"max": mx, "min": mn, "tasks": ["ret", "ret"], "clients": [["start", "enq0", "await0"], ["enq1", "await1"]],
                 "props": ["exactly_once", "results", "bounded", "nodeadlock"], "window_at": 0, "twin_prog": "progress", "hold": [1]}
